@@ -144,10 +144,30 @@ def run_entry(entry, src, workdir):
     return failed, success, " | ".join(m[:60] for m in cap.msgs[-2:])
 
 
+def isa_rejects(rng, n):
+    """statements the 65c816 does not define (mnemonic x operand shape x width from the ISA matrix of vf/specs/isa65816.py, as in C01's sweep): each is an
+    `unsupported addressing mode or width` error that has to reach the caller"""
+    import b_C01
+    from a816.cpu.cpu_65c816 import snes_opcode_table
+    pool = []
+    for mn in sorted(snes_opcode_table):
+        if mn in b_C01.isa.BRANCHES:
+            continue
+        for shape in b_C01.SHAPES:
+            for suffix in ("", "b", "w", "l"):
+                v = 0x12 if suffix else rng.choice([0x10, 0x100, 0x10000])
+                if shape and b_C01.expected_for(mn, shape, suffix, v)[0] == "reject":
+                    pool.append([mn, shape, suffix, v, 0])
+    return rng.sample(pool, min(n, len(pool)))
+
+
 def check(case):
     wd = tempfile.mkdtemp(prefix="vfC14")
     try:
-        if case.get("truncated") is not None:
+        if case.get("isa_reject") is not None:
+            import b_C01
+            src = VALID[case["valid"]] + b_C01.render(*case["isa_reject"]) + "\nnop\n"
+        elif case.get("truncated") is not None:
             src = VALID[case["valid"]] + TRUNCATED[case["truncated"]]
         else:
             src = VALID[case["valid"]] if case["error"] is None else inject(VALID[case["valid"]], materialise_includes(ERRORS[case["error"]], wd), case["pos"])
@@ -182,6 +202,8 @@ def gen(tier, rng):
         yield {"valid": rng.randrange(len(VALID)), "error": err, "pos": rng.randrange(6), "entry": "cli"}
         if tier == "thorough":
             yield {"valid": rng.randrange(len(VALID)), "error": err, "pos": rng.randrange(6), "entry": "cli-sfc"}
+    for r in isa_rejects(rng, 60 if tier == "thorough" else 12):   # through the full entry-point machinery; ALL of them through the string API in run()
+        yield {"valid": 0, "error": "not-a-65c816-instruction:" + " ".join(str(x) for x in r[:3]), "isa_reject": r, "pos": 0, "entry": rng.choice(entries)}
     for k, t in enumerate(TRUNCATED):
         for e in (entries if tier == "thorough" else [entries[k % 3]]) + (["cli"] if tier == "thorough" or k % 4 == 0 else []):
             yield {"valid": rng.randrange(len(VALID)), "error": "truncated:" + t, "truncated": k, "pos": 0, "entry": e}
@@ -197,8 +219,19 @@ def run(tier, seed):
         if f and (c["error"], c["entry"]) not in kinds and len(failures) < 12:
             kinds.add((c["error"], c["entry"]))
             failures.append({"ident": f"bounded/fault-injection/{c['entry']}", "script": "b_C14.py", "payload": c, "observed": f})
-    return {"evaluations": len(cases), "distinct_nontrivial": len({str(c) for c in cases}),
-            "rule": "40 kinds of definite error (incl. undefined symbols nobody reads) x statement positions, 15 constructs cut off right before their closing token at the very end of the source, x 4 entry points (CLI in a subprocess) on 4 valid base programs; "
+    # every mnemonic x operand shape x width the 65c816 does not define, through the string API (in-process): an error must come back
+    import b_C01
+    from common import assemble
+    pool = isa_rejects(rng, 10 ** 9)
+    for r in pool:
+        stmt = b_C01.render(*r)
+        res = assemble("*=0x008000\n" + stmt + "\nnop\n")
+        if res["status"] == "ok" and ("isa", r[0]) not in kinds and len(failures) < 16:
+            kinds.add(("isa", r[0]))
+            failures.append({"ident": "bounded/fault-injection/string", "script": "b_C14.py", "payload": {"valid": 0, "error": "not-a-65c816-instruction", "isa_reject": r, "pos": 0, "entry": "string"},
+                             "observed": f"`{stmt}` is not a 65c816 instruction but the string API reports success ({b''.join(b for _a, b in res['blocks']).hex()})"})
+    return {"evaluations": len(cases) + len(pool), "distinct_nontrivial": len({str(c) for c in cases}) + len(pool),
+            "rule": "40 kinds of definite error (incl. undefined symbols nobody reads) x statement positions, 15 constructs cut off right before their closing token at the very end of the source, every mnemonic x operand-shape x width combination the 65c816 does not define (string API; a sample through the other entry points), x 4 entry points (CLI in a subprocess) on 4 valid base programs; "
                     "plus the valid programs themselves (must succeed); distinct = distinct (program, error, position, entry point)",
             "samples": cases[:1] + cases[20:22], "failures": failures}
 
